@@ -135,7 +135,7 @@ def check():
         f_look = MM.one(r"grammar::<impl[^>]*>::lookup$")
         f_cache = MM.one(r"grammar::<impl[^>]*>::cache$")
         f_wo = MM.one(r"grammar::<impl[^>]*>::without_cache$")
-        f_new = MM.one(r"grammar::<impl at oal-model/src/grammar\.rs:48[0-9][^>]*>::new$")
+        f_new = MM.sel("grammar", "new", ret=r"grammar::Context<")
     except Exception as ex:
         o.inconc("MIR: %s" % str(ex)[-300:])
         return o.finish()
